@@ -165,6 +165,13 @@ class Update(object):
 
         # get every part of the update message
         withdraw_len = struct.unpack('!H', msg_hex[:2])[0]
+        if len(msg_hex) >= 4 and (
+                withdraw_len + 4 > len(msg_hex) or
+                withdraw_len + 4 + struct.unpack('!H', msg_hex[withdraw_len + 2:withdraw_len + 4])[0] > len(msg_hex)):
+            # Withdrawn Routes Length or Total Attribute Length is too large (RFC 4271 6.3)
+            results['sub_error'] = bgp_cons.ERR_MSG_UPDATE_MALFORMED_ATTR_LIST
+            results['err_data'] = ''
+            return results
         withdraw_prefix_data = msg_hex[2:withdraw_len + 2]
         attr_len = struct.unpack('!H', msg_hex[withdraw_len + 2:withdraw_len + 4])[0]
         attribute_data = msg_hex[withdraw_len + 4:withdraw_len + 4 + attr_len]
